@@ -263,6 +263,8 @@ func (in *Interp) verifCall(fn *ssa.Function, args []Value) Value {
 	case "verifNote":
 		in.ctx.ex.Notes[argName()]++
 		return nil
+	case "verifIsReplay":
+		return tFalse
 	case "verifFmtExact":
 		in.fmtExact = args[0].(*Term).IsTrue()
 		return nil
